@@ -383,16 +383,18 @@ Fixpoint filter_map {A B} (f : A -> option B) (l : list A) : list B :=
   | x :: r => match f x with Some y => y :: filter_map f r | None => filter_map f r end
   end.
 
-(** Stream::read_group.  [after = sid_max] is the marker for ">".  An explicit ID (da451f0)
-    reads the consumer's own history: its pending entries after that ID that are still in
-    the stream; nothing becomes pending, the cursor does not move, NOACK is irrelevant. *)
-Definition st_read_group (now : Z) (s : stream) (g : group) (c : bytes) (after : sid) (count : option Z)
+(** Stream::read_group.  [after = None] is ">" (7d40622: no ID value doubles as the marker).
+    An explicit ID (da451f0) reads the consumer's own history: its pending entries after that
+    ID that are still in the stream; nothing becomes pending, the cursor does not move, NOACK
+    is irrelevant. *)
+Definition st_read_group (now : Z) (s : stream) (g : group) (c : bytes) (after : option sid) (count : option Z)
            (noack : bool) : list sentry * group :=
-  if negb (sid_eqb after sid_max) then
-    match g_redeliver_pending now g c after count with
+  match after with
+  | Some a =>
+    match g_redeliver_pending now g c a count with
     | (ids, g') => (filter_map (fun id => find_entry id (s_entries s)) ids, g')
     end
-  else
+  | None =>
   let es := st_range_after (s_entries s) (g_last g) count in
   match es with
   | [] => ([], g)
@@ -404,6 +406,15 @@ Definition st_read_group (now : Z) (s : stream) (g : group) (c : bytes) (after :
              | [] => g
              end)
       else (es, g_add_pending now g c (map fst es))
+  end
+  end.
+(** the second component of read_group's result (cc8be72): did the read change the group -
+    consumer created or IDs delivered again (history), new entries delivered / consumed (">") *)
+Definition st_read_changed (now : Z) (s : stream) (g : group) (c : bytes) (after : option sid) (count : option Z)
+           (noack : bool) : bool :=
+  match after with
+  | Some a => negb (amem c (g_consumers g)) || negb (match fst (g_redeliver_pending now g c a count) with [] => true | _ => false end)
+  | None => negb (match fst (st_read_group now s g c None count noack) with [] => true | _ => false end)
   end.
 
 (** byte-wise sorted association lists for replies in canonical order *)
@@ -646,7 +657,8 @@ Fixpoint scan_ropts (fuel : nat) (grp : bool) (l : list frame) (o : ropts) : sca
           match r with
           | FBulk c :: r' =>
               match parse_usize c with
-              | Some n => scan_ropts fu grp r' {| ro_count := Some n; ro_block := ro_block o; ro_noack := ro_noack o |}
+              | Some n =>   (* XREADGROUP (cc6cf30): .filter(|&n| n > 0) - COUNT 0 means no limit; XREAD keeps Some(0) *)
+                  scan_ropts fu grp r' {| ro_count := if grp && (n =? 0) then None else Some n; ro_block := ro_block o; ro_noack := ro_noack o |}
               | None => if grp then scan_ropts fu grp r' {| ro_count := None; ro_block := ro_block o; ro_noack := ro_noack o |}
                         else ScanErr
               end
@@ -970,10 +982,10 @@ Definition h_xgroup (now : Z) (d : db) (parts : list frame) : frame * db :=
 
 (** handle_xreadgroup after the repair 3384736, first pass: resolve every key (storage.get:
     lazy expiry), parse every ID, check that the group exists; nothing is delivered.  Same
-    order of checks per key as before: key frame, ID frame, storage.get (a missing key is
-    skipped before its ID is looked at), ID text, group. *)
+    order of checks per key as before: key frame, ID frame, storage.get (a missing key answers
+    NOGROUP before its ID is looked at, d9160ac), ID text, group. *)
 Fixpoint xreadgroup_resolve (now : Z) (d : db) (gn : bytes) (keys ids : list frame)
-         (acc : list (bytes * sid)) : (frame + list (bytes * sid)) * db :=
+         (acc : list (bytes * option sid)) : (frame + list (bytes * option sid)) * db :=
   match keys, ids with
   | kf :: keys', idf :: ids' =>
       match kf with
@@ -982,9 +994,9 @@ Fixpoint xreadgroup_resolve (now : Z) (d : db) (gn : bytes) (keys ids : list fra
           | FBulk ib =>
               match get_stream now d k with
               | (SStream e s, d1) =>
-                  let after := if beq ib (bs ">") then Some sid_max
-                               else if beq ib (bs "0") || beq ib (bs "0-0") then Some sid_zero
-                               else sid_of_bytes ib in
+                  let after := if beq ib (bs ">") then Some None
+                               else if beq ib (bs "0") || beq ib (bs "0-0") then Some (Some sid_zero)
+                               else option_map Some (sid_of_bytes ib) in
                   match after with
                   | None => (inl r_err, d1)
                   | Some a =>
@@ -994,7 +1006,7 @@ Fixpoint xreadgroup_resolve (now : Z) (d : db) (gn : bytes) (keys ids : list fra
                       end
                   end
               | (SWrong, d1) => (inl r_wrongtype, d1)
-              | (SMissing, d1) => xreadgroup_resolve now d1 gn keys' ids' acc
+              | (SMissing, d1) => (inl r_nogroup, d1)        (* d9160ac: a key that does not exist has no group *)
               end
           | _ => (inl r_err, d)
           end
@@ -1006,50 +1018,53 @@ Fixpoint xreadgroup_resolve (now : Z) (d : db) (gn : bytes) (keys ids : list fra
 (** second pass: deliver.  The streams resolved by the first pass share their groups with
     the stored values (Arc), so a key listed twice sees the effect of its first read; the
     NOGROUP arm of read_group cannot be taken any more (kept as written). *)
-Fixpoint xreadgroup_deliver (now : Z) (d : db) (gn c : bytes) (o : ropts) (reads : list (bytes * sid))
-         (acc : list frame) : frame * db :=
+Fixpoint xreadgroup_deliver (now : Z) (d : db) (gn c : bytes) (o : ropts) (reads : list (bytes * option sid))
+         (acc : list frame) (ms : list bytes) : frame * db * list bytes :=
   match reads with
   | (k, a) :: rest =>
       match raw_stream d k with
       | SStream e s =>
           match alookup gn (s_groups s) with
-          | None => (r_nogroup, d)
+          | None => (r_nogroup, d, ms)
           | Some g =>
               match st_read_group now s g c a (ro_count o) (ro_noack o) with
-              | ([], g') =>
-                  (* Ok(_) => {}: nothing to report; an explicit ID may still have created the consumer *)
-                  xreadgroup_deliver now (if sid_eqb a sid_max then d else put_group d k e s gn g') gn c o rest acc
               | (es, g') =>
-                  xreadgroup_deliver now (put_group d k e s gn g') gn c o rest
-                                     (acc ++ [FArray [FBulk k; r_entries es]])
+                  (* cc8be72: the key is marked for WATCH iff the read changed the group; a read that
+                     changed nothing leaves the stored value as it is *)
+                  let changed := st_read_changed now s g c a (ro_count o) (ro_noack o) in
+                  xreadgroup_deliver now (if changed then put_group d k e s gn g' else d) gn c o rest
+                                     (match es with [] => acc | _ => acc ++ [FArray [FBulk k; r_entries es]] end)
+                                     (if changed then ms ++ [k] else ms)
               end
           end
-      | _ => xreadgroup_deliver now d gn c o rest acc
+      | _ => xreadgroup_deliver now d gn c o rest acc ms
       end
   | [] =>
       match acc, ro_block o with
-      | [], Some _ => (FNullArray, d)
-      | _, _ => (FArray acc, d)
+      | [], Some _ => (FNullArray, d, ms)
+      | _, _ => (FArray acc, d, ms)
       end
   end.
 
-Definition h_xreadgroup (now : Z) (d : db) (parts : list frame) : frame * db :=
-  if nparts parts <? 6 then (r_err, d) else
-  if negb (is_kw (nth_error parts 1) "GROUP") then (r_err, d) else
+(** the handler with the keys it marks through mark_key_modified *)
+Definition h_xreadgroup_full (now : Z) (d : db) (parts : list frame) : frame * db * list bytes :=
+  if nparts parts <? 6 then (r_err, d, []) else
+  if negb (is_kw (nth_error parts 1) "GROUP") then (r_err, d, []) else
   match nth_arg parts 2, nth_arg parts 3 with
   | Some gn, Some c =>
       match scan_ropts (length parts) true (skipn 4 parts) {| ro_count := None; ro_block := None; ro_noack := false |} with
-      | ScanErr => (r_err, d)
+      | ScanErr => (r_err, d, [])
       | ScanOk o rest =>
-          if negb (len rest mod 2 =? 0) then (r_err, d) else
+          if negb (len rest mod 2 =? 0) then (r_err, d, []) else
           let n := Z.to_nat (len rest / 2) in
           match xreadgroup_resolve now d gn (firstn n rest) (skipn n rest) [] with
-          | (inl err, d1) => (err, d1)
-          | (inr reads, d1) => xreadgroup_deliver now d1 gn c o reads []
+          | (inl err, d1) => (err, d1, [])
+          | (inr reads, d1) => xreadgroup_deliver now d1 gn c o reads [] []
           end
       end
-  | _, _ => (r_err, d)
+  | _, _ => (r_err, d, [])
   end.
+Definition h_xreadgroup (now : Z) (d : db) (parts : list frame) : frame * db := fst (h_xreadgroup_full now d parts).
 
 Definition h_xack (now : Z) (d : db) (parts : list frame) : frame * db :=
   if nparts parts <? 4 then (r_err, d) else
@@ -1101,20 +1116,15 @@ Definition h_xpending (now : Z) (d : db) (parts : list frame) : frame * db :=
                             let cons := if 6 <? nparts parts then nth_arg parts 6 else None in
                             let st := if beq sb (bs "-") then None else sid_of_bytes sb in
                             let en := if beq eb (bs "+") then None else sid_of_bytes eb in
-                            match cons with
-                            | Some c =>
-                                let rows := match alookup c (g_by_consumer g) with
-                                            | Some ids => filter_map (fun i => pel_find i (g_by_id g)) ids
-                                            | None => []
-                                            end in
-                                (FArray (map (r_pending_row now) (ztake cnt rows)), d1)
-                            | None =>
-                                let st' := match st with Some i => i | None => sid_zero end in
-                                let en' := match en with Some i => i | None => sid_max end in
-                                (* after the repair 8b811fd: an inverted range selects nothing *)
-                                if sid_ltb en' st' then (FArray [], d1)
-                                else (FArray (map (r_pending_row now) (ztake cnt (pel_range (g_by_id g) st' en'))), d1)
-                            end
+                            let st' := match st with Some i => i | None => sid_zero end in
+                            let en' := match en with Some i => i | None => sid_max end in
+                            (* after the repair 8b811fd: an inverted range selects nothing; after c8418b5 the
+                               range applies with and without a consumer name, ID order, COUNT after the filter *)
+                            if sid_ltb en' st' then (FArray [], d1)
+                            else
+                              let rows := filter (fun p => match cons with Some c => beq (p_consumer p) c | None => true end)
+                                                 (pel_range (g_by_id g) st' en') in
+                              (FArray (map (r_pending_row now) (ztake cnt rows)), d1)
                         | None => (r_err, d1)
                         end
                     | None => (r_err, d1)
@@ -1300,10 +1310,9 @@ Definition exec_streams (now : Z) (d : db) (name : bytes) (parts : list frame) (
     StorageEngine::mark_key_modified when the handler changed the group state (pending
     entries, cursor, consumers live behind a shared Arc outside the engine): XGROUP CREATE
     and SETID that answer OK, DESTROY / CREATECONSUMER that answer 1, DELCONSUMER and XCLAIM
-    whenever the group exists, XACK that acknowledged something, XREADGROUP once per stream
-    it reports entries from.  Not marked: an explicit-ID XREADGROUP that reports nothing
-    (it still registers the reader, and bumps the delivery counters of pending entries that
-    were deleted from the stream): finding group-reread-unmarked. *)
+    whenever the group exists, XACK that acknowledged something, XREADGROUP once per read
+    that changed the group (cc8be72: consumer created, IDs delivered again, new entries
+    delivered or consumed; [h_xreadgroup_full] collects them). *)
 Definition gone_keys (d d' : db) : list bytes :=
   filter (fun k => negb (amem k (d_data d'))) (map fst (d_data d)).
 Definition fresh_keys (d d' : db) : list bytes :=
@@ -1328,7 +1337,7 @@ Definition reply_keys (reply : frame) : list bytes :=
   | _ => []
   end.
 (** storage.mark_key_modified call sites of commands/consumer_groups.rs (ed8ba04) *)
-Definition marks_group_cmd (d' : db) (name : bytes) (parts : list frame) (reply : frame) : list bytes :=
+Definition marks_group_cmd (now : Z) (d d' : db) (name : bytes) (parts : list frame) (reply : frame) : list bytes :=
   if beq name (bs "XGROUP") then
     match nth_arg parts 1, nth_arg parts 2, nth_arg parts 3 with
     | Some sub, Some k, Some gn =>
@@ -1341,7 +1350,7 @@ Definition marks_group_cmd (d' : db) (name : bytes) (parts : list frame) (reply 
         else []
     | _, _, _ => []
     end
-  else if beq name (bs "XREADGROUP") then reply_keys reply
+  else if beq name (bs "XREADGROUP") then snd (h_xreadgroup_full now d parts)
   else if beq name (bs "XACK") then
     match nth_arg parts 1, reply with
     | Some k, FInt n => if 0 <? n then [k] else []
@@ -1353,12 +1362,12 @@ Definition marks_group_cmd (d' : db) (name : bytes) (parts : list frame) (reply 
     | _, _ => []
     end
   else [].
-Definition marks_streams (d d' : db) (name : bytes) (parts : list frame) (reply : frame) : list bytes :=
+Definition marks_streams (now : Z) (d d' : db) (name : bytes) (parts : list frame) (reply : frame) : list bytes :=
   let k1 := match nth_arg parts 1 with Some k => [k] | None => [] end in
   if beq name (bs "XADD") then (match reply with FBulk _ => k1 | _ => [] end)
   else if beq name (bs "XTRIM") || beq name (bs "XDEL") then
     (match reply with FInt n => if 0 <? n then k1 else [] | _ => [] end)
   else if beq name (bs "XGROUP") || beq name (bs "XREADGROUP") || beq name (bs "XACK") || beq name (bs "XCLAIM")
           || beq name (bs "XPENDING") || beq name (bs "XINFO") then
-    gone_keys d d' ++ reborn_keys d d' ++ fresh_keys d d' ++ marks_group_cmd d' name parts reply
+    gone_keys d d' ++ reborn_keys d d' ++ fresh_keys d d' ++ marks_group_cmd now d d' name parts reply
   else [].
